@@ -11,7 +11,7 @@ from gvsim.sim import Client, Raised, Sim, sut
 
 PROP = 'C04'
 TIERS = {'quick': {'runs': 1600, 'wall': 100}, 'thorough': {'runs': 40000, 'wall': 1500}}
-REACH = ['read_before_reset', 'repeated_read', 'step_without_read', 'reset_mid_episode', 'outer_state_read', 'bad_action_outside', 'reseed_gv', 'lookahead_from_live_state_object', 'lookahead_actuates', 'outer_representation_reassigned']  # probes / faults that must fire in every batch (reach gaps are reported in the evidence)
+REACH = ['read_before_reset', 'repeated_read', 'step_without_read', 'reset_mid_episode', 'outer_state_read', 'bad_action_outside', 'reseed_gv', 'lookahead_from_live_state_object', 'lookahead_actuates', 'outer_representation_reassigned', 'unseeded_environment_op']  # probes / faults that must fire in every batch (reach gaps are reported in the evidence)
 RULE = ('one run = 1-3 clients (shipped configurations and random compositions, stochastic_raytracing included so that '
         'an extra observation computation shows up as generator drift), each paired with a twin environment that is '
         'only ever used through the functional interface (M-env); seeded interleaved op lists with arbitrary patterns '
@@ -38,6 +38,9 @@ def generate(seed, run, tier):
             if r.random() < 0.5:
                 spec['obs']['name'] = 'stochastic_raytracing'
         spec['outer'] = r.choice(['default', 'no-overlap', 'compact'])
+        if r.random() < 0.12:
+            # never given a seed: randomness comes from the library-level generator (controlled with reset_gv_rng)
+            spec['unseeded'] = True
         clients.append(spec)
     rec['clients'] = clients
     n = r.randint(30, 120 if not big else 400)
@@ -48,7 +51,7 @@ def generate(seed, run, tier):
         if pre:
             # reads before the first reset must raise
             ops.append([c, r.choice(['read_state', 'read_obs_raw', 'outer_read'])])
-        if r.random() < 0.8:
+        if r.random() < 0.8 and not clients[c].get('unseeded'):
             ops.append([c, 'set_seed', W.gen_seed(r)])
     while len(ops) < n:
         c = r.randrange(ncl)
@@ -75,7 +78,10 @@ def generate(seed, run, tier):
             if r.random() < 0.3:
                 ops.extend(_fault(r, c))
         elif m < 0.93:
-            ops.append([c, 'set_seed', W.gen_seed(r)])
+            if clients[c].get('unseeded') and r.random() < 0.7:
+                ops.append([c, 'read_state'])  # mostly stays unseeded
+            else:
+                ops.append([c, 'set_seed', W.gen_seed(r)])
         elif m < 0.945:
             # the representation objects of the outer environment are public attributes (the gym layer re-assigns them)
             ops.append([c, 'outer_switch', r.choice(['state', 'observation']), r.choice(['default', 'no-overlap', 'compact'])])
@@ -152,6 +158,27 @@ class MirrorSim(Sim):
                                 observation_representation=make_observation_representation(name, cl.env.observation_space))
 
     # ---- helpers
+    def pair(self, cl, real_call, twin_call):
+        """the stateful call and its functional mirror.  An environment that was never given a seed draws from the
+        library-level generator, which both share: the mirror starts from the generator state the stateful call
+        started from, and both must leave it in the same state."""
+        from gym_gridverse import rng as gvrng
+
+        if cl.rng_state() is not None and self.twins[cl.idx].rng_state() is not None:
+            return sut(real_call), sut(twin_call), True
+        import copy
+
+        g = gvrng.get_gv_rng()
+        st0 = copy.deepcopy(g.bit_generator.state)
+        r = sut(real_call)
+        st1 = copy.deepcopy(g.bit_generator.state)
+        g.bit_generator.state = st0
+        f = sut(twin_call)
+        st2 = copy.deepcopy(g.bit_generator.state)
+        g.bit_generator.state = st1
+        self.ctx.probe('unseeded_environment_op')
+        return r, f, st1 == st2
+
     def lockstep(self, cl, where):
         a, b = cl.rng_state(), self.twins[cl.idx].rng_state()
         if a != b:
@@ -176,8 +203,10 @@ class MirrorSim(Sim):
 
     def _reset(self, cl, via):
         tw = self.twins[cl.idx]
-        r = sut(cl.outer.reset if via == 'outer' else cl.env.reset)
-        S = sut(tw.env.functional_reset)
+        r, S, same_draws = self.pair(cl, cl.outer.reset if via == 'outer' else cl.env.reset, tw.env.functional_reset)
+        if not same_draws and not (isinstance(r, Raised) or isinstance(S, Raised)):
+            self.violate('mirror', 'generator_drift', 'reset', 'library_generator', 'an unseeded environment consumed the library generator differently from the functional threading')
+            return
         if isinstance(r, Raised) or isinstance(S, Raised):
             if isinstance(r, Raised) != isinstance(S, Raised):
                 self.violate('mirror', 'reset_outcome_differs', via, '-', f'{r!r} vs {S!r}')
@@ -205,8 +234,11 @@ class MirrorSim(Sim):
         a = action_of(cl.actions[k % len(cl.actions)])
         if cl.reads_since_change == 0:
             self.ctx.probe('step_without_read')
-        r = sut((cl.outer.step if via == 'outer' else cl.env.step), a)
-        f = sut(tw.env.functional_step, cl.S, a)
+        S_before = cl.S
+        r, f, same_draws = self.pair(cl, lambda: (cl.outer.step if via == 'outer' else cl.env.step)(a), lambda: tw.env.functional_step(S_before, a))
+        if not same_draws and not (isinstance(r, Raised) or isinstance(f, Raised)):
+            self.violate('mirror', 'generator_drift', 'step', 'library_generator', 'an unseeded environment consumed the library generator differently from the functional threading')
+            return
         if isinstance(r, Raised) or isinstance(f, Raised):
             if isinstance(r, Raised) != isinstance(f, Raised):
                 self.violate('mirror', 'step_outcome_differs', via, '-', f'{r!r} vs {f!r}')
@@ -236,11 +268,22 @@ class MirrorSim(Sim):
         tw = self.twins[cl.idx]
         for j in range(n):
             g0 = cl.rng_state()
-            o = sut(lambda: cl.env.observation)
             if not cl.fresh:
-                cl.O = sut(tw.env.functional_observation, cl.S)
+                S_now = cl.S
+                o, cl.O, same_draws = self.pair(cl, lambda: cl.env.observation, lambda: tw.env.functional_observation(S_now))
                 cl.Okey = None if isinstance(cl.O, Raised) else state_key(cl.O)
                 cl.fresh = True
+                if not same_draws and not (isinstance(o, Raised) or isinstance(cl.O, Raised)):
+                    self.violate('mirror', 'generator_drift', 'read', 'library_generator', 'an unseeded environment consumed the library generator differently from the functional threading')
+                    return
+            else:
+                from gym_gridverse import rng as gvrng
+
+                gv0 = repr(gvrng.get_gv_rng().bit_generator.state)
+                o = sut(lambda: cl.env.observation)
+                if repr(gvrng.get_gv_rng().bit_generator.state) != gv0 and cl.rng_state() is None:
+                    self.violate('mirror', 'repeated_read_consumed_randomness', 'read', 'library_generator', 'a repeated read advanced the library generator')
+                    return
             if isinstance(o, Raised) or isinstance(cl.O, Raised):
                 if isinstance(o, Raised) != isinstance(cl.O, Raised):
                     self.violate('mirror', 'observation_outcome_differs', 'read', '-', f'{o!r} vs {cl.O!r}')
@@ -361,8 +404,7 @@ class MirrorSim(Sim):
         calls0 = cl.obs_calls
         Q = P
         if what in ('step', 'both'):
-            r1 = sut(cl.env.functional_step, P, a)
-            r2 = sut(tw.env.functional_step, P2, a)
+            r1, r2, _same = self.pair(cl, lambda: cl.env.functional_step(P, a), lambda: tw.env.functional_step(P2, a))
             if isinstance(r1, Raised) or isinstance(r2, Raised):
                 return
             if state_key(r1[0]) != state_key(r2[0]) or r1[1] != r2[1] or bool(r1[2]) != bool(r2[2]):
@@ -370,8 +412,7 @@ class MirrorSim(Sim):
                 return
             Q = r1[0]
         if what in ('obs', 'both'):
-            o1 = sut(cl.env.functional_observation, Q)
-            o2 = sut(tw.env.functional_observation, Q)
+            o1, o2, _same = self.pair(cl, lambda: cl.env.functional_observation(Q), lambda: tw.env.functional_observation(Q))
             if isinstance(o1, Raised) or isinstance(o2, Raised):
                 return
             if state_key(o1) != state_key(o2):
